@@ -2,7 +2,12 @@
     rules ([pair_rules]) with respect to the executable 6502 semantics (M6502/Sem.v).
 
     Statements that turned out to be false as first stated are refuted by a concrete
-    counterexample ([..._refuted]) and then proved with a named extra hypothesis. *)
+    counterexample ([..._refuted]) and then proved with a named extra hypothesis.
+
+    The knowledge [transfer] returns describes the state actually reached in the OPTIMISED text:
+    when the instruction is kept ([snd (transfer k i ahead) = false]) the state after it
+    ([transfer_sound]); when it is a load to be removed, the state in which it is not executed
+    ([transfer_removed_sound]).  The global statement built on these is in Proofs/OptSimFacts.v. *)
 From Coq Require Import String Ascii List Bool NArith ZArith FMapPositive Lia ZifyBool.
 From CC Require Import Base.Str Asm.Lines M6502.Isa Asm.Operand M6502.Sem Model.Optimize Model.OptSem.
 Import ListNotations.
@@ -557,37 +562,31 @@ Ltac inv_wr :=
       apply write_operand_inv in H; destruct H as [? ->]
   end.
 
-(** a load that is KEPT (and executed) leaves the flags describing its register *)
-Lemma transfer_kept_load : forall k i ahead,
-  snd (transfer k i ahead) = false ->
-  (i_mn i = LDA -> fst (transfer k i ahead) = mkK (Some (i_op i)) (k_x k) (k_y k) FA) /\
-  (i_mn i = LDX -> fst (transfer k i ahead)
-                   = mkK (kill_if ends_x (k_acc k)) (Some (i_op i)) (kill_if ends_x (k_y k)) FX) /\
-  (i_mn i = LDY -> fst (transfer k i ahead)
-                   = mkK (kill_if ends_y (k_acc k)) (kill_if ends_y (k_x k)) (Some (i_op i)) FY).
-Proof.
-  intros k i ahead H. unfold transfer in *.
-  repeat split; intros M; rewrite M in *; cbv zeta in *; cbn [fst snd] in *; rewrite H; reflexivity.
-Qed.
+(** the instruction is kept ([snd (transfer k i ahead) = false]) and executed: the new knowledge
+    is sound for the state it leads to.  (When [transfer] asks for the removal of a load, the
+    knowledge it returns describes the state in which the load is NOT executed:
+    [transfer_removed_sound] below.) *)
+Ltac kept HR :=
+  cbv beta iota zeta delta [transfer i_mn i_op i_prot snd fst] in HR |- *;
+  rewrite HR; cbn [negb orb].
 
 Theorem transfer_sound : forall cfg k i ahead s s',
   ports cfg = [] -> bytes_ok s ->
   (i_mn i = PHA \/ i_mn i = PHP -> know_off_stack cfg k s) ->
   ind_legal i -> xfer_no_zp_y cfg k i ->
-  snd (transfer k i ahead) = false ->
   know_sound cfg k s -> steps_to cfg i s s' ->
+  snd (transfer k i ahead) = false ->
   know_sound cfg (fst (transfer k i ahead)) s'.
 Proof.
-  intros cfg k i ahead s s' HP HB HOFF HIND HXF HKEPT KS (op & c & P & E).
+  intros cfg k i ahead s s' HP HB HOFF HIND HXF KS (op & c & P & E) HR.
   destruct KS as (KA & KX & KY & KF & KFX & KFY).
   pose proof (parse_none_iff _ _ _ P) as PN.
-  destruct (transfer_kept_load _ _ _ HKEPT) as (KLA & KLX & KLY). clear HKEPT.
   destruct i as [mn o cy alt nb pr]. cbn [i_mn i_op] in *.
   destruct mn.
-  - (* LDA *) rewrite (KLA eq_refl). clear KLA KLX KLY. inv_exec E. bulk KA KX KY KF.
+  - (* LDA *) inv_exec E. kept HR. bulk KA KX KY KF.
     intros o' Ho'. inversion Ho'. subst o'. exists op, c. split; [exact P|].
     rewrite (read_operand_frame cfg LDA s); [eassumption| | |]; intros; reflexivity.
-  - (* LDX *) rewrite (KLX eq_refl). clear KLA KLX KLY. inv_exec E. bulk KA KX KY KF.
+  - (* LDX *) inv_exec E. kept HR. bulk KA KX KY KF.
     intros o' Ho'. inversion Ho'. subst o'. exists op, c. split; [exact P|].
     match goal with R : read_operand _ _ _ _ = Some _ |- _ =>
       pose proof (ldx_not_x _ _ _ _ R) as U;
@@ -595,7 +594,7 @@ Proof.
     + rewrite U. discriminate.
     + intros; reflexivity.
     + intros; reflexivity.
-  - (* LDY *) rewrite (KLY eq_refl). clear KLA KLX KLY. inv_exec E. bulk KA KX KY KF.
+  - (* LDY *) inv_exec E. kept HR. bulk KA KX KY KF.
     intros o' Ho'. inversion Ho'. subst o'. exists op, c. split; [exact P|].
     match goal with R : read_operand _ _ _ _ = Some _ |- _ =>
       assert (U : uses_y op = false);
@@ -790,6 +789,46 @@ Proof.
     left. apply ST'. right. right. split; [exact M|reflexivity].
 Qed.
 Print Assumptions removal_sound.
+
+(** the instruction is a load that [transfer] asks to remove: the knowledge returned with the
+    removal bit is sound for the SAME state, the one in which the load is not executed (the
+    register already holds the operand; the flags component is left as it was unless N/Z describe
+    that register already) *)
+Theorem transfer_removed_sound : forall cfg k i ahead s,
+  know_sound cfg k s -> snd (transfer k i ahead) = true ->
+  know_sound cfg (fst (transfer k i ahead)) s.
+Proof.
+  intros cfg k i ahead s (KA & KX & KY & KF & KFX & KFY) R.
+  unfold transfer in R |- *.
+  destruct (i_mn i) eqn:M; cbn [snd] in R; try discriminate R;
+    try (destruct (String.eqb (i_op i) ""); discriminate R);
+    try (destruct (k_acc k) as [va|]; [destruct (ends_x va)|]; discriminate R);
+    try (destruct (k_acc k) as [va|]; [destruct (ends_y va)|]; discriminate R).
+  - (* LDA *)
+    cbv zeta. cbn [fst]. rewrite R. cbn [negb orb].
+    destruct (opt_eqb (k_acc k) (i_op i)) eqn:EQ; [|discriminate R]. apply opt_eqb_true in EQ.
+    unfold know_sound. cbn [k_acc k_x k_y k_flags].
+    split; [intros o Ho; inversion Ho; subst o; apply KA; exact EQ|].
+    split; [exact KX|]. split; [exact KY|].
+    destruct (k_flags k) eqn:F; cbn [flags_is_A]; (split; [|split]); intros H; try discriminate H; auto.
+  - (* LDX *)
+    cbv zeta. cbn [fst]. rewrite R. cbn [negb orb].
+    destruct (opt_eqb (k_x k) (i_op i)) eqn:EQ; [|discriminate R]. apply opt_eqb_true in EQ.
+    unfold know_sound. cbn [k_acc k_x k_y k_flags].
+    split; [intros o Ho; apply kill_if_some in Ho; apply KA; exact (proj1 Ho)|].
+    split; [intros o Ho; inversion Ho; subst o; apply KX; exact EQ|].
+    split; [intros o Ho; apply kill_if_some in Ho; apply KY; exact (proj1 Ho)|].
+    destruct (k_flags k) eqn:F; (split; [|split]); intros H; try discriminate H; auto.
+  - (* LDY *)
+    cbv zeta. cbn [fst]. rewrite R. cbn [negb orb].
+    destruct (opt_eqb (k_y k) (i_op i)) eqn:EQ; [|discriminate R]. apply opt_eqb_true in EQ.
+    unfold know_sound. cbn [k_acc k_x k_y k_flags].
+    split; [intros o Ho; apply kill_if_some in Ho; apply KA; exact (proj1 Ho)|].
+    split; [intros o Ho; apply kill_if_some in Ho; apply KX; exact (proj1 Ho)|].
+    split; [intros o Ho; inversion Ho; subst o; apply KY; exact EQ|].
+    destruct (k_flags k) eqn:F; (split; [|split]); intros H; try discriminate H; auto.
+Qed.
+Print Assumptions transfer_removed_sound.
 
 (** * Known-immediate compare *)
 
@@ -1194,6 +1233,42 @@ Proof.
 Qed.
 Print Assumptions rule_sta_lda.
 
+(** the accumulator instructions that set N and Z from the new A *)
+Lemma a_flags (cfg : config) (i : instr) (s s' : mstate) :
+  i_mn i = LDA \/ i_mn i = ORA -> steps_to cfg i s s' ->
+  fZ s' = (rA s' =? 0) /\ fN s' = bit7 (rA s').
+Proof.
+  intros [M|M] (op & c & P & E); rewrite M in E; inv_exec E; split; reflexivity.
+Qed.
+
+(** the rule as the optimiser applies it now, only when N/Z describe A: nothing changes at all *)
+Theorem rule_sta_lda_exact : forall cfg k i1 i2 s s1 s2,
+  ports cfg = [] -> i_mn i1 = STA -> i_mn i2 = LDA -> i_op i1 = i_op i2 ->
+  ptr_not_hit cfg i1 s ->
+  know_sound cfg k s1 -> k_flags k = FA ->
+  steps_to cfg i1 s s1 -> steps_to cfg i2 s1 s2 -> eq_state s2 s1.
+Proof.
+  intros cfg k i1 i2 s s1 s2 HP M1 M2 EO PNH (_ & _ & _ & KF & _) FA ST1 ST2.
+  pose proof (rule_sta_lda cfg i1 i2 s s1 s2 HP M1 M2 EO PNH ST1 ST2) as NZ.
+  destruct (KF FA) as [Z1 N1]. destruct (a_flags cfg i2 s1 s2 (or_introl M2) ST2) as [Z2 N2].
+  pose proof NZ as (HA & _).
+  split; [exact NZ|]. rewrite Z2, N2, Z1, N1, HA. split; reflexivity.
+Qed.
+Print Assumptions rule_sta_lda_exact.
+
+Theorem rule_ora_zero_exact : forall cfg k i s s',
+  bytes_ok s -> i_mn i = ORA -> i_op i = "#0"%string ->
+  know_sound cfg k s -> k_flags k = FA ->
+  steps_to cfg i s s' -> eq_state s' s.
+Proof.
+  intros cfg k i s s' HB M O (_ & _ & _ & KF & _) FA ST.
+  pose proof (rule_ora_zero cfg i s s' HB M O ST) as NZ.
+  destruct (KF FA) as [Z1 N1]. destruct (a_flags cfg i s s' (or_intror M) ST) as [Z2 N2].
+  pose proof NZ as (HA & _).
+  split; [exact NZ|]. rewrite Z2, N2, Z1, N1, HA. split; reflexivity.
+Qed.
+Print Assumptions rule_ora_zero_exact.
+
 Theorem rule_pla_pha : forall cfg i1 i2 s s1 s2,
   bytes_ok s -> i_mn i1 = PLA -> i_mn i2 = PHA ->
   steps_to cfg i1 s s1 -> steps_to cfg i2 s1 s2 -> eq_mod_anzc s2 s.
@@ -1433,7 +1508,7 @@ Example transfer_sound_refuted_txa :
   exists cfg k i ahead s s',
     ports cfg = [] /\ bytes_ok s /\
     (i_mn i = PHA \/ i_mn i = PHP -> know_off_stack cfg k s) /\ ind_legal i /\
-    know_sound cfg k s /\ steps_to cfg i s s' /\
+    know_sound cfg k s /\ steps_to cfg i s s' /\ snd (transfer k i ahead) = false /\
     ~ know_sound cfg (fst (transfer k i ahead)) s'.
 Proof.
   exists (cx_cfg "v" 128), (mkK None (Some "v,Y"%string) None FUnknown), (cx_ins TXA ""), [],
@@ -1445,7 +1520,7 @@ Proof.
   split.
   { unfold know_sound. cbn [k_acc k_x k_y k_flags].
     split; [discriminate|]. split; [cx_holds|]. cx_rest. }
-  split; [cx_steps|].
+  split; [cx_steps|]. split; [vm_compute; reflexivity|].
   intros (KA & _). specialize (KA "v,Y"%string eq_refl). destruct KA as (op & c & P & R).
   vm_compute in P. inversion P; subst op. vm_compute in R. discriminate R.
 Qed.
@@ -1456,7 +1531,7 @@ Example transfer_sound_refuted_tax :
   exists cfg k i ahead s s',
     ports cfg = [] /\ bytes_ok s /\
     (i_mn i = PHA \/ i_mn i = PHP -> know_off_stack cfg k s) /\ ind_legal i /\
-    know_sound cfg k s /\ steps_to cfg i s s' /\
+    know_sound cfg k s /\ steps_to cfg i s s' /\ snd (transfer k i ahead) = false /\
     ~ know_sound cfg (fst (transfer k i ahead)) s'.
 Proof.
   exists (cx_cfg "v" 128), (mkK (Some "v,Y"%string) None None FUnknown), (cx_ins TAX ""), [],
@@ -1468,7 +1543,7 @@ Proof.
   split.
   { unfold know_sound. cbn [k_acc k_x k_y k_flags].
     split; [cx_holds|]. split; [discriminate|]. cx_rest. }
-  split; [cx_steps|].
+  split; [cx_steps|]. split; [vm_compute; reflexivity|].
   intros (_ & KX & _). specialize (KX "v,Y"%string eq_refl). destruct KX as (op & c & P & R).
   vm_compute in P. inversion P; subst op. vm_compute in R. discriminate R.
 Qed.
@@ -1480,7 +1555,7 @@ Example transfer_sound_refuted_ldy_ind :
   exists cfg k i ahead s s',
     ports cfg = [] /\ bytes_ok s /\
     (i_mn i = PHA \/ i_mn i = PHP -> know_off_stack cfg k s) /\ xfer_no_zp_y cfg k i /\
-    know_sound cfg k s /\ steps_to cfg i s s' /\
+    know_sound cfg k s /\ steps_to cfg i s s' /\ snd (transfer k i ahead) = false /\
     ~ know_sound cfg (fst (transfer k i ahead)) s'.
 Proof.
   exists (cx_cfg "p" 16), (mkK None None None FUnknown), (cx_ins LDY "(p),Y"), [],
@@ -1491,7 +1566,7 @@ Proof.
   split; [split; discriminate|].
   split.
   { unfold know_sound. cbn [k_acc k_x k_y k_flags]. repeat split; discriminate. }
-  split; [cx_steps|].
+  split; [cx_steps|]. split; [vm_compute; reflexivity|].
   intros (_ & _ & KY & _). specialize (KY "(p),Y"%string eq_refl). destruct KY as (op & c & P & R).
   vm_compute in P. inversion P; subst op. vm_compute in R. discriminate R.
 Qed.
@@ -1501,7 +1576,7 @@ Print Assumptions transfer_sound_refuted_ldy_ind.
 Example transfer_sound_refuted_pha :
   exists cfg k i ahead s s',
     ports cfg = [] /\ bytes_ok s /\ ind_legal i /\ xfer_no_zp_y cfg k i /\
-    know_sound cfg k s /\ steps_to cfg i s s' /\
+    know_sound cfg k s /\ steps_to cfg i s s' /\ snd (transfer k i ahead) = false /\
     ~ know_sound cfg (fst (transfer k i ahead)) s'.
 Proof.
   exists (cx_cfg "stk" 511), (mkK None (Some "stk"%string) None FUnknown), (cx_ins PHA ""), [],
@@ -1513,7 +1588,7 @@ Proof.
   split.
   { unfold know_sound. cbn [k_acc k_x k_y k_flags].
     split; [discriminate|]. split; [cx_holds|]. cx_rest. }
-  split; [cx_steps|].
+  split; [cx_steps|]. split; [vm_compute; reflexivity|].
   intros (_ & KX & _). specialize (KX "stk"%string eq_refl). destruct KX as (op & c & P & R).
   vm_compute in P. inversion P; subst op. vm_compute in R. discriminate R.
 Qed.
